@@ -13,6 +13,11 @@ Inductive cli_out :=
 Definition is_cct (e : exn) : bool :=
   match e with SignatureError | MetadataVerificationError | UnknownRoleError => true | _ => false end.
 
+(* the failure report prints the declared type: on a UTF-8 standard output (what the harness gives the processes)
+   a lone surrogate cannot be encoded and print raises UnicodeEncodeError *)
+Definition utf8_encodable (v : pv) : bool :=
+  match v with VStr s => forallb (fun c => negb ((55296 <=? c) && (c <=? 57343))) s | _ => true end.
+
 Definition code_root : Z := match Params.verify_exit_codes with Some [(_, _, c); _] => c | _ => 0%Z end.
 Definition code_other : Z := match Params.verify_exit_codes with Some [_; (_, _, c)] => c | _ => 0%Z end.
 
@@ -37,7 +42,7 @@ Section Cli.
             else
               match verify_delegation ed_verify sha256 ty u t (VBool false) with
               | Ok _ => Exit 0 true
-              | Err e => if is_cct e && is_str ty then Exit code_other false else Crash
+              | Err e => if is_cct e && is_str ty && utf8_encodable ty then Exit code_other false else Crash
               | Unmodelled => CliUnmodelled
               end
         | Err _ => Crash
